@@ -10,7 +10,16 @@ A *scenario* is a JSON-able dict
      "config": {"startup_timeout": .., "shutdown_timeout": .., "graceful_timeout": .., "max_requests": null | n},
      "clients": [{"id": 0, "kind": "h1" | "h2" | "ws", "steps": [[...], ...]}, ...],
      "trigger_at": seconds | null,                                # when the harness lets `shutdown_trigger` return
-     "observe_until": seconds}                                    # serve() not back by then -> outcome "stuck"
+     "observe_until": seconds,                                    # serve() not back by then -> outcome "stuck"
+     "trigger_after": {"scope": n, "http_done": m},               # optional: the trigger (due at trigger_at) also waits until the
+                                                                  # application has recorded that many events (the phase the
+                                                                  # connections are meant to be in is reached, not assumed)
+     "trigger_path": path,                                        # optional (max_requests): the request whose scope IS the trigger
+     "late_tolerance": seconds,                                   # optional: record `harness_late` when a timed step of the harness
+                                                                  # itself starts later than this (loaded machine)
+     "start_when_listening": bool}                                # optional: the scenario clock (clients, trigger, observe_until)
+                                                                  # starts when the worker logs `Running on …` (start-up itself is
+                                                                  # not the subject: a slow start on a loaded machine shifts nothing)
 
 All times are seconds on the scenario clock (0 = just before `worker_serve` is called).  The runner only records;
 judging is done by harness/gen/C14.py and C15.py.  `run_many` executes scenarios in separate processes.
@@ -44,6 +53,9 @@ class Recorder:
         self.t0 = time.monotonic()
         self.lock = threading.Lock()
         self.events: List[list] = []
+        self.counts: Dict[str, int] = {}          # events per kind (the trigger / client steps can wait for the application)
+        self.trigger_t: Optional[float] = None    # instant shutdown was triggered (harness trigger, or the `trigger_path` scope)
+        self.late_tol: Optional[float] = None     # when set: a timed step that starts later than this is recorded (`harness_late`)
 
     def now(self) -> float:
         return time.monotonic() - self.t0
@@ -51,6 +63,38 @@ class Recorder:
     def add(self, kind: str, **data: Any) -> None:
         with self.lock:
             self.events.append([len(self.events), round(self.now(), 4), kind, data])
+            self.counts[kind] = self.counts.get(kind, 0) + 1
+
+    def count(self, kind: str) -> int:
+        with self.lock:
+            return self.counts.get(kind, 0)
+
+    def mark_trigger(self) -> None:
+        if self.trigger_t is None:
+            self.trigger_t = self.now()
+
+    def late(self, what: str, by: float, **data: Any) -> None:
+        """the harness itself was late (a loaded machine): the scenario as run is not the scenario as written"""
+        if self.late_tol is not None and by > self.late_tol:
+            self.add("harness_late", what=what, by=round(by, 4), **data)
+
+    def wait_counts(self, want: Dict[str, int], timeout: float, stop: Optional[threading.Event] = None) -> float:
+        """wait until at least `want[kind]` events of each kind were recorded; returns how long that took"""
+        t = time.monotonic()
+        while time.monotonic() - t < timeout and not (stop is not None and stop.is_set()):
+            with self.lock:
+                if all(self.counts.get(k, 0) >= n for k, n in want.items()):
+                    break
+            time.sleep(0.002)
+        return time.monotonic() - t
+
+    def rebase(self) -> None:
+        """the scenario clock restarts now; what was recorded so far gets instants <= 0 (order and distances kept)"""
+        with self.lock:
+            delta = time.monotonic() - self.t0
+            self.t0 += delta
+            for e in self.events:
+                e[1] = round(e[1] - delta, 4)
 
     def sleep_until(self, t: float, stop: Optional[threading.Event] = None) -> None:
         while True:
@@ -137,6 +181,8 @@ def make_app(rec: Recorder, sc: dict) -> Callable:
     async def http(scope, receive, send) -> None:
         path = scope["path"]
         rec.add("scope", type="http", path=path, http_version=scope.get("http_version"))
+        if path == sc.get("trigger_path"):
+            rec.mark_trigger()
         parts = path.strip("/").split("/")
         try:
             if parts[0] == "hang":
@@ -191,7 +237,7 @@ def make_app(rec: Recorder, sc: dict) -> Callable:
     return app
 
 
-def make_logger_class(rec: Recorder):
+def make_logger_class(rec: Recorder, on_listening: Optional[Callable[[], None]] = None):
     class RecLogger:
         def __init__(self, config) -> None:
             self.access_logger = None
@@ -205,6 +251,8 @@ def make_logger_class(rec: Recorder):
                 message = message % a if a else message
             except Exception:
                 pass
+            if on_listening is not None and str(message).startswith("Running on"):
+                on_listening()
             rec.add("log", level=level, message=str(message)[:120])
 
         async def critical(self, message, *a, **k): await self._rec("critical", message, *a)
@@ -233,8 +281,12 @@ class Client(threading.Thread):
     def ev(self, kind: str, **data: Any) -> None:
         self.rec.add("client", cid=self.cid, what=kind, **data)
 
+    gate: Optional[Callable[[], None]] = None
+
     def run(self) -> None:
         try:
+            if self.gate is not None:
+                self.gate()
             for step in self.spec["steps"]:
                 if self.stop.is_set():
                     break
@@ -254,6 +306,26 @@ class Client(threading.Thread):
     # -- generic steps
     def do_at(self, t: float) -> None:
         self.rec.sleep_until(t, self.stop)
+        self.rec.late("client_step", self.rec.now() - t, cid=self.cid, at=t)
+
+    def do_at_counts(self, t: float, want: Dict[str, int]) -> None:
+        """at instant `t`, but not before the application has recorded `want[kind]` events of each kind"""
+        self.rec.sleep_until(t, self.stop)
+        self.rec.late("client_step", self.rec.now() - t, cid=self.cid, at=t)
+        self.rec.late("client_wait_for_application", self.rec.wait_counts(want, 2.0, self.stop), cid=self.cid, want=want)
+
+    def _wait_trigger(self, dt: float, timeout: float = 4.0) -> Optional[float]:
+        end = time.monotonic() + timeout
+        while self.rec.trigger_t is None and time.monotonic() < end and not self.stop.is_set():
+            time.sleep(0.002)
+        return None if self.rec.trigger_t is None else self.rec.trigger_t + dt
+
+    def do_after_trigger(self, dt: float) -> None:
+        """`dt` seconds after shutdown was actually triggered (not after the instant it was due)"""
+        t = self._wait_trigger(dt)
+        if t is not None:
+            self.rec.sleep_until(t, self.stop)
+            self.rec.late("client_step", self.rec.now() - t, cid=self.cid, after_trigger=dt)
 
     def do_sleep(self, seconds: float) -> None:
         """relative wait (C18: strictly sequential requests whatever the machine load)"""
@@ -426,6 +498,16 @@ class H2Client(Client):
         if self.sock is not None:
             self._pump(seconds)
 
+    def do_pump_after_trigger(self, dt: float) -> None:
+        """keep reading until `dt` seconds after shutdown was actually triggered"""
+        if self.sock is None:
+            return
+        end = time.monotonic() + 4.0
+        while self.rec.trigger_t is None and time.monotonic() < end and not self.stop.is_set() and not self.eof:
+            self._pump(0.01)
+        if self.rec.trigger_t is not None:
+            self._pump(max(0.0, self.rec.trigger_t + dt - self.rec.now()))
+
     def do_wait_close(self, timeout: float) -> None:
         if self.sock is None:
             return
@@ -550,10 +632,18 @@ def run_scenario(sc: dict, shared: Optional[dict] = None) -> dict:
     from hypercorn.config import Config, Sockets
 
     rec = Recorder()
+    gate = bool(sc.get("start_when_listening"))
+    listening = threading.Event()        # set at once unless the scenario clock is to start with the listener
+
+    def on_listening() -> None:
+        if not listening.is_set():
+            rec.rebase()
+            listening.set()
+
     config = Config()
     config.accesslog = None
     config.errorlog = None
-    config.logger_class = make_logger_class(rec)
+    config.logger_class = make_logger_class(rec, on_listening if gate else None)
     config.keep_alive_timeout = 30
     for k, v in sc.get("config", {}).items():
         setattr(config, k, v)
@@ -589,14 +679,31 @@ def run_scenario(sc: dict, shared: Optional[dict] = None) -> dict:
     if shared is not None:
         shared.update(rec=rec, outcome=outcome, port=port)
 
+    LISTEN_WAIT = 10.0                   # a worker that is not listening by then is observed on the clock as it is
+
+    def wait_listening() -> None:
+        end = time.monotonic() + LISTEN_WAIT
+        while gate and not listening.is_set() and not stop.is_set() and time.monotonic() < end:
+            time.sleep(0.002)
+
+    if sc.get("late_tolerance") is not None:
+        rec.late_tol = float(sc["late_tolerance"])
+
     def trigger_thread() -> None:
+        wait_listening()
         if sc.get("trigger_at") is not None:
             rec.sleep_until(float(sc["trigger_at"]), stop)
+            rec.late("trigger", rec.now() - float(sc["trigger_at"]))
+            if sc.get("trigger_after"):
+                rec.late("trigger_wait_for_application", rec.wait_counts(dict(sc["trigger_after"]), 2.0, stop), want=sc["trigger_after"])
             if not stop.is_set():
+                rec.mark_trigger()
                 rec.add("trigger")
                 fire.set()
 
     clients = [CLIENTS[c["kind"]](rec, port, c, stop) for c in sc.get("clients", [])]
+    for c in clients:
+        c.gate = wait_listening
     tt = threading.Thread(target=trigger_thread, daemon=True)
 
     if sc["worker"] == "asyncio":
@@ -613,6 +720,9 @@ def run_scenario(sc: dict, shared: Optional[dict] = None) -> dict:
             for c in clients:
                 c.start()
             task = asyncio.ensure_future(worker_serve(app, config, sockets=sockets, shutdown_trigger=trigger))
+            end = time.monotonic() + LISTEN_WAIT
+            while gate and not listening.is_set() and not task.done() and time.monotonic() < end:
+                await asyncio.sleep(0.002)
             done, pending = await asyncio.wait([task], timeout=observe_until)
             if pending:
                 outcome.update(outcome="stuck", classes=[], t=None)
@@ -659,17 +769,28 @@ def run_scenario(sc: dict, shared: Optional[dict] = None) -> dict:
             tt.start()
             for c in clients:
                 c.start()
-            with trio.move_on_after(observe_until) as cs:
-                try:
-                    await trio_worker_serve(app, config, sockets=sockets, shutdown_trigger=ttrigger)
-                    outcome.update(outcome="return", classes=[], t=round(rec.now(), 4))
-                except trio.Cancelled:
-                    raise
-                except BaseException as e:  # noqa
-                    classes = _leaf_classes(e)
-                    if cs.cancel_called and set(classes) <= {"Cancelled"}:
+            async def observe(cs) -> None:
+                # the observation window starts with the listener
+                end = time.monotonic() + LISTEN_WAIT
+                while not listening.is_set() and time.monotonic() < end:
+                    await trio.sleep(0.002)
+                cs.deadline = trio.current_time() + observe_until
+
+            async with trio.open_nursery() as helper:
+                with trio.move_on_after(observe_until + (LISTEN_WAIT if gate else 0.0)) as cs:
+                    if gate:
+                        helper.start_soon(observe, cs)
+                    try:
+                        await trio_worker_serve(app, config, sockets=sockets, shutdown_trigger=ttrigger)
+                        outcome.update(outcome="return", classes=[], t=round(rec.now(), 4))
+                    except trio.Cancelled:
                         raise
-                    outcome.update(outcome="raise", classes=classes, t=round(rec.now(), 4), message=str(e)[:200])
+                    except BaseException as e:  # noqa
+                        classes = _leaf_classes(e)
+                        if cs.cancel_called and set(classes) <= {"Cancelled"}:
+                            raise
+                        outcome.update(outcome="raise", classes=classes, t=round(rec.now(), 4), message=str(e)[:200])
+                helper.cancel_scope.cancel()
             if "outcome" not in outcome:
                 outcome.update(outcome="stuck", classes=[], t=None)
             rec.add("serve_end", **outcome)
@@ -693,7 +814,7 @@ def run_scenario(sc: dict, shared: Optional[dict] = None) -> dict:
     return {"events": rec.events, "serve": outcome, "port": port}
 
 
-WEDGE_GRACE = 15.0      # seconds after `observe_until` a scenario process may take to wind down before it is declared wedged
+WEDGE_GRACE = 20.0      # seconds after `observe_until` a scenario process may take to wind down before it is declared wedged
 
 
 def _child(sc: dict, conn, timeout: float = 40.0) -> None:
@@ -900,6 +1021,8 @@ def probe_flags() -> Dict[str, dict]:
                    "config": {"startup_timeout": 0.4, "shutdown_timeout": 0.3, "graceful_timeout": 0.2},
                    "clients": [{"id": 0, "kind": "h1", "steps": [["at", 0.08], ["connect"], ["get", "/hang/0"], ["wait_close", 1.4]]}],
                    "trigger_at": 0.2, "observe_until": 1.3, "client_grace": 0.1})
+    for pr in probes:
+        pr["start_when_listening"] = True      # the instants below are measured from the moment the listener exists
     o1, o2, o3 = run_many(probes, procs=3)
     flags["asyncio"]["waitClosedBlocksOnConnections"] = o3["serve"]["outcome"] == "stuck"
     flags["asyncio"]["cpython_wait_closed_waits_for_connections"] = probe_wait_closed_blocks()
@@ -913,7 +1036,7 @@ def probe_flags() -> Dict[str, dict]:
         (o4,) = run_many([{"worker": "asyncio", "lifespan": ["recv", "startup_complete", "recv", "shutdown_complete", "return"],
                            "config": {"startup_timeout": 0.4, "shutdown_timeout": 0.3, "graceful_timeout": 0.2},
                            "clients": [{"id": 0, "kind": "h2", "steps": [["at", 0.05], ["connect"], ["stream", "/hang/0"], ["wait_close", 1.6]]}],
-                           "trigger_at": 0.35, "observe_until": 1.5, "client_grace": 0.1}], procs=1)
+                           "trigger_at": 0.35, "observe_until": 1.5, "client_grace": 0.1, "start_when_listening": True}], procs=1)
         flags["asyncio"]["h2CancelDeadlocks"] = o4["serve"]["outcome"] == "stuck"
         flags["asyncio"]["h2CancelDeadlocks_measured"] = True
     flags["asyncio"]["endCancelRaises"] = o1["serve"]["outcome"] == "raise" and "CancelledError" in o1["serve"].get("classes", [])
@@ -1006,6 +1129,13 @@ def model_request(sc: dict, cmd: str, flags: Dict[str, dict]) -> dict:
                     ev(t, "conn_write", cid=cid, k=k, v=v, wait=trio)
             elif st[0] == "pump":
                 t = max(t, float(st[1]))
+            elif st[0] == "at_counts":
+                t = float(st[1])
+            elif st[0] in ("after_trigger", "pump_after_trigger"):
+                # on the model's clock shutdown is triggered at the instant it is due
+                nominal = sc["trigger_at"] if sc.get("trigger_at") is not None else sc.get("nominal_trigger")
+                if nominal is not None:
+                    t = max(t, float(nominal) + float(st[1]))
             elif st[0] == "close":
                 ev(t, "client_close", cid=cid)
     if sc.get("trigger_at") is not None:
